@@ -258,7 +258,7 @@ fn observe_valid(id: &str, kind: &str, bytes: &[u8], w: &mut dyn Write) {
                 let (tx, rx) = std::sync::mpsc::channel::<&'static str>();
                 let (ma, mb) = (m.clone(), m2.clone());
                 let _ = std::thread::Builder::new().stack_size(32 << 20).spawn(move || {
-                    let d = catch_unwind(AssertUnwindSafe(|| drive_actions(&ma) == drive_actions(&mb)));
+                    let d = catch_unwind(AssertUnwindSafe(|| drive_actions(&ma) == drive_actions(&mb) && sample_table(&ma) == sample_table(&mb)));
                     let _ = tx.send(match d { Ok(true) => "same", Ok(false) => "diff", Err(_) => "panic" });
                 });
                 // supervised: an endless loop inside the framework is a result ("panic" class), not a stuck check
@@ -275,6 +275,29 @@ fn observe_valid(id: &str, kind: &str, bytes: &[u8], w: &mut dyn Write) {
     }
     let _ = writeln!(w, "peak {} {} {}", peak, s.len(), std::mem::size_of::<State>());
     let _ = writeln!(w, "end");
+}
+
+/// what every state of `m` samples for every event under a fixed set of random words (the history above
+/// need not reach every state)
+fn sample_table(m: &Machine) -> Vec<Option<usize>> {
+    use crate::util::ScriptRng;
+    let mut out = Vec::new();
+    let evs = [
+        maybenot::event::Event::NormalRecv, maybenot::event::Event::PaddingRecv, maybenot::event::Event::TunnelRecv,
+        maybenot::event::Event::NormalSent, maybenot::event::Event::PaddingSent, maybenot::event::Event::TunnelSent,
+        maybenot::event::Event::BlockingBegin, maybenot::event::Event::BlockingEnd, maybenot::event::Event::LimitReached,
+        maybenot::event::Event::CounterZero, maybenot::event::Event::TimerBegin, maybenot::event::Event::TimerEnd,
+        maybenot::event::Event::Signal,
+    ];
+    for st in m.states.iter() {
+        for e in evs.iter() {
+            let mut rng = ScriptRng::new(33, 0);
+            for _ in 0..12 {
+                out.push(st.sample_state(*e, &mut rng));
+            }
+        }
+    }
+    out
 }
 
 /// actions of a framework holding two copies of `m` over a scripted history (every event kind, for both ids
